@@ -37,3 +37,6 @@ theories/FloorTrick.vos theories/FloorTrick.vok theories/FloorTrick.required_vos
 theories/FloatTricks.vo theories/FloatTricks.glob theories/FloatTricks.v.beautified theories/FloatTricks.required_vo: theories/FloatTricks.v theories/Base.vo theories/Sem.vo theories/FloorTrick.vo
 theories/FloatTricks.vio: theories/FloatTricks.v theories/Base.vio theories/Sem.vio theories/FloorTrick.vio
 theories/FloatTricks.vos theories/FloatTricks.vok theories/FloatTricks.required_vos: theories/FloatTricks.v theories/Base.vos theories/Sem.vos theories/FloorTrick.vos
+theories/Erase.vo theories/Erase.glob theories/Erase.v.beautified theories/Erase.required_vo: theories/Erase.v theories/Base.vo
+theories/Erase.vio: theories/Erase.v theories/Base.vio
+theories/Erase.vos theories/Erase.vok theories/Erase.required_vos: theories/Erase.v theories/Base.vos
